@@ -99,15 +99,32 @@ def _is_identity(e: ast.AST, ref: str, data: str) -> bool:
         l, r = src(e.left), src(e.comparators[0])
         if isinstance(e.ops[0], ast.Is) and ref in (l, r):
             return True
-        if isinstance(e.ops[0], ast.In) and l == ref and r == data:
-            return True     # set membership of the reference node
+    # `any(m is ref for m in data)`: the reference node itself is a member.
+    # (`ref in data` is membership by *equality*: true of an unrelated set
+    # that holds an equal scalar, which must not be touched.)
+    if isinstance(e, ast.Call) and src(e.func) == "any" and \
+            len(e.args) == 1 and isinstance(e.args[0], ast.GeneratorExp):
+        ge = e.args[0]
+        if len(ge.generators) == 1 and not ge.generators[0].ifs and \
+                src(ge.generators[0].iter) == data and \
+                isinstance(ge.elt, ast.Compare) and len(ge.elt.ops) == 1 \
+                and isinstance(ge.elt.ops[0], ast.Is):
+            m = src(ge.generators[0].target)
+            if {src(ge.elt.left), src(ge.elt.comparators[0])} == {m, ref}:
+                return True
     return False
+
+
+#: names whose having an anchor says nothing about the *old* node (the
+#: replacement node always has the attribute); set by d1_guards
+_NOT_THE_OLD_NODE: Set[str] = set()
 
 
 def _is_anchor(e: ast.AST) -> bool:
     return isinstance(e, ast.Call) and src(e.func) == "hasattr" and \
         len(e.args) == 2 and isinstance(e.args[1], ast.Constant) and \
-        e.args[1].value == "anchor"
+        e.args[1].value == "anchor" and \
+        src(e.args[0]) not in _NOT_THE_OLD_NODE
 
 
 def _pos_parts(e: ast.AST, data: str, par: str, ref: str) -> Set[str]:
@@ -213,6 +230,8 @@ def d1_guards(chk: Check) -> None:
     fi = recurse_fn(prog)
     chk.analysed(fi)
     data, par, pref, ref, repl = fi.params()
+    _NOT_THE_OLD_NODE.clear()
+    _NOT_THE_OLD_NODE.add(repl)
     sites = store_sites(fi)
     if len(sites) < 8:
         raise AnalysisError("only {} store sites found in recurse()".format(
@@ -497,6 +516,14 @@ def d4_d5(chk: Check) -> None:
             lb = loop_binding(v.id, d)
             if lb is not None and src(lb[1]) == par:
                 continue
+            # the parentref of a set member is the member itself (C02-D1s
+            # decides that for every producer of coordinates), so under a
+            # presence test it is an object out of the container
+            if v.id == pref and any(
+                    f.kind == "cond" and f.pol and
+                    src(f.expr).replace(" ", "") == "{}in{}".format(pref, par)
+                    for f in facts_at(d)):
+                continue
         foreign.append(d)
     if foreign:
         chk.fail("C03-D5", un, foreign[0], src(foreign[0])[:60],
@@ -515,6 +542,42 @@ def d4_d5(chk: Check) -> None:
                  "the node found at (parent, parentref)")
 
 
+def d12_integers_are_exact(chk: Check) -> None:
+    """An integer handed to the INT arm of make_new_node is stored exactly.
+    Python integers are unbounded; a detour through `float()` rounds
+    everything above 2**53 to the nearest double (an epoch in nanoseconds,
+    a 64-bit id), and the anchor and all its aliases then hold another
+    number than the one that was set."""
+    prog = chk.prog
+    chk.rule("C03-D12", "the INT arm of make_new_node converts with int() "
+             "on the supplied value, never through float()", floor=1)
+    fi = prog.func("Nodes.make_new_node")
+    arms = [n for n in walk_local(fi.node) if isinstance(n, ast.If) and
+            src(n.test).endswith("YAMLValueFormats.INT")]
+    if len(arms) != 1:
+        raise AnalysisError("INT arm of make_new_node not found")
+    arm = arms[0]
+    value = fi.params()[1]
+    floats = [c for st in arm.body for c in ast.walk(st)
+              if isinstance(c, ast.Call) and src(c.func) in
+              ("float", "Decimal", "round", "math.floor", "math.trunc")]
+    ints = [c for st in arm.body for c in ast.walk(st)
+            if isinstance(c, ast.Call) and src(c.func) == "int"]
+    if floats:
+        chk.fail("C03-D12", fi, floats[0], "INT arm: `{}`".format(
+            src(floats[0])[:40]),
+            "the value passes through `{}` on its way to the integer node: "
+            "integers above 2**53 are silently rounded".format(
+                src(floats[0].func)))
+    elif len(ints) == 1 and ints[0].args and src(ints[0].args[0]) == value:
+        chk.ok("C03-D12", fi, ints[0], "INT arm: `{}`".format(src(ints[0])),
+               "exact conversion of the supplied value")
+    else:
+        chk.fail("C03-D12", fi, arm, "INT arm",
+                 "the integer is not produced by int(<supplied value>): {}"
+                 .format([src(c)[:30] for c in ints]))
+
+
 def run(chk: Check) -> None:
     d1_guards(chk)
     d2_sole_writers(chk)
@@ -530,6 +593,11 @@ def run(chk: Check) -> None:
     d7_float_presentation(chk)
     d8_type_ladders(chk)
     d9_rename_position(chk)
+    d10_twin_arms(chk)
+    d12_integers_are_exact(chk)
+    from rules.shared import shared_state_rule
+    shared_state_rule(chk, "C03-D11", ("yamlpath/processor.py",
+                                   "yamlpath/common/nodes.py"), 45)
     from rules.c10 import d5_no_live_mutation
     d5_no_live_mutation(chk, "C03-D6", ("yamlpath/processor.py",
                                          "yamlpath/common/nodes.py"))
@@ -773,4 +841,24 @@ def d9_rename_position(chk: Check) -> None:
                      "keys: the renamed entry lands where another entry "
                      "(e.g. the first one with an equal value) sits, and "
                      "the order of the bystanders changes".format(src(pos)))
+
+
+def d10_twin_arms(chk: Check) -> None:
+    """The node constructors come in pairs -- with and without the anchor
+    of the node being replaced.  The two calls must pass the same value
+    fields: an anchored timestamp built without its microseconds (or an
+    anchored float without its precision) stores another value than the
+    one that was set, in the anchor and every alias."""
+    from sa.twins import twin_constructor_arms
+    prog = chk.prog
+    chk.rule("C03-D10", "the anchored and un-anchored arms of each node "
+             "constructor in nodes.py pass the same value arguments",
+             floor=4)
+    for fi in prog.funcs_in("yamlpath/common/nodes.py"):
+        for node, desc, problem in twin_constructor_arms(fi):
+            text = "{}: {}".format(fi.short, desc[:70])
+            if problem is None:
+                chk.ok("C03-D10", fi, node, text, "arms agree")
+            else:
+                chk.fail("C03-D10", fi, node, text, problem)
 
